@@ -1506,8 +1506,32 @@ class ArrayInterp(Interp):
                 self.finding("filtered-inputs", e, "inputs are filtered before use: %s" % _src(e), fr)
             t = toks(it.L, it.part)
             gen = lambda s: frozenset("ELEM" if x in t else x for x in s)  # noqa: E731
-            tmpl = replace(v, alias=gen(v.alias), M=gen(v.M), D=gen(v.D), Pc=gen(v.Pc), Pg=gen(v.Pg), dtprov=gen(v.dtprov), maskof=gen(v.maskof), dataof=gen(v.dataof), maskalias=gen(v.maskalias))
+            Mt = gen(v.M)
+            if it.part == "all" and v.kind == "masked" and len(t) > 1 and t <= v.M and not filtered:
+                # does every element get a mask that covers ALL the inputs (the union mask handed to each layer), or its own?  The
+                # element stands for any input, so evaluate the body once more for the FIRST input only: what it still covers of the
+                # others does not come from the element
+                try:
+                    f3 = Frame(fr.module, fr.func, fr.cls, _copy_env(fr.env), fr.depth)
+                    f3.returns = fr.returns
+                    self.assign(g.target, self.elem_of(replace(it, part="first"), g.iter, fr), f3, e)
+                    v1 = self.ev(e.elt, f3)
+                    if isinstance(v1, Arr) and t <= v1.M:
+                        Mt = v.M  # kept as the explicit tokens: not the element's own mask
+                except Unsupported:
+                    pass
+            tmpl = replace(v, alias=gen(v.alias), M=Mt, D=gen(v.D), Pc=gen(v.Pc), Pg=gen(v.Pg), dtprov=gen(v.dtprov), maskof=gen(v.maskof), dataof=gen(v.dataof), maskalias=gen(v.maskalias))
             return Lst("masks" if (v.isbool and v.maskof) else "arrs", L=it.L, part=it.part, elem=tmpl, sorted_=it.sorted_)
+        if isinstance(it, Lst) and it.what == "zip" and isinstance(v, Arr) and not filtered:
+            # [f(x, w) for x, w in zip(inputs, weights)]: one array per input, in the order of the inputs
+            ms_ = [z_ for z_ in it.zipped if isinstance(z_, Lst) and z_.what in ("cmds", "arrs", "masks") and z_.L]
+            if len(ms_) == 1:
+                m_ = ms_[0]
+                t = toks(m_.L, m_.part)
+                if t & (v.D | v.alias | v.M):
+                    gen = lambda s_: frozenset("ELEM" if x in t else x for x in s_)  # noqa: E731
+                    tmpl = replace(v, alias=gen(v.alias), M=gen(v.M), D=gen(v.D), Pc=gen(v.Pc), Pg=gen(v.Pg), dtprov=gen(v.dtprov), maskof=gen(v.maskof), dataof=gen(v.dataof), maskalias=gen(v.maskalias))
+                    return Lst("masks" if (v.isbool and v.maskof) else "arrs", L=m_.L, part=m_.part, elem=tmpl, sorted_=m_.sorted_)
         if isinstance(it, Lst) and it.what == "range" and it.sliced is not None and isinstance(v, Arr) and not filtered:
             # an index walk over a whole input list: [f(xs[i]) for i in range(k, len(xs))] is the list [f(x) for x in xs[k:]]
             part = "rest" if it.sliced[0] == 1 else "all"
@@ -1736,6 +1760,8 @@ class ArrayInterp(Interp):
                 return base
             return Lst("mixed", items=(Scal(sym="raw", D=getattr(base.elem, "D", E), Pg=getattr(base.elem, "Pg", E)), Scal(sym="normal")))
         if base.what == "shape":
+            if is_slice and base.srcs and base.srcs[0] == "stacked" and isinstance(idx, Other) and idx.tag == "slice" and isinstance(idx.info[0], Scal) and idx.info[0].const == 1 and idx.info[1] is None:
+                return Lst("shape", srcs=("same",))  # (layers, *cells)[1:] is the shape of one layer
             return base if is_slice else Scal(dt=I_)
         if base.what == "zip" and is_slice and base.zipped:
             # a slice of a zip slices every zipped sequence alike
@@ -2476,6 +2502,12 @@ class ArrayInterp(Interp):
             return base
         if meth in ("fill", "itemset", "put", "resize", "partition", "set_fill_value", "setflags", "byteswap"):
             self.write_site(base, e, "%s() mutates the array" % meth, fr)
+            ax_ = K.get("axis", A[1] if len(A) > 1 else None)
+            if meth == "partition" and base.shape in ("stacked", "stackedflat") and isinstance(ax_, Scal) and ax_.const == 0:
+                # a partial ordering along the LAYER axis: within every cell the layers are moved, no cell moves.  Which layers sit at
+                # which end afterwards depends on the pivot: rules that read "the k truest" off a sorted stack cannot use it
+                self.res.soft_undecided.append("`%s` orders the layer stack only partially: which layers a later slice selects is outside what is read here" % _src(e)[:50])
+                return Other("none")
             if meth in ("resize", "partition", "put", "itemset"):
                 self.finding("equivariance", e, "%s() is position dependent" % meth, fr)
             return Other("none")
@@ -2947,7 +2979,8 @@ class ArrayInterp(Interp):
                 kind = el.kind if ".ma." in qn else "plain"
                 pc = el.Pc | (el.D if el.kind == "masked" and kind == "plain" else E)
                 return replace(el, shape=shape, alias=S(), kind=kind, M=el.M if kind == "masked" else (el.M if el.isbool else E), Pc=pc, maskof=E, dataof=E, rng=(None, None),
-                               layermask=kind == "masked" and len(el.M) > 1)
+                               layermask=kind == "masked" and len(el.M) > 1 and not (isinstance(a0.elem, Arr) and a0.elem.M and "ELEM" not in a0.elem.M),  # (every layer was given the same, complete mask)
+                               maskalias=E)  # stacking allocates the data and (numpy.ma) the mask anew
             if isinstance(a0, Lst) and a0.items is not None and all(isinstance(x, Arr) for x in a0.items) and a0.items:
                 r = a0.items[0]
                 for x in a0.items[1:]:
@@ -3239,6 +3272,8 @@ class ArrayInterp(Interp):
             if qn in ("os.remove", "os.unlink", "os.rename", "os.makedirs", "os.mkdir", "os.rmdir", "os.system", "os.replace"):
                 self.res.effects.append(("os-mutation", e.lineno, _src(e)[:80], self.fkey(fr), e))
             return Other("opaque", qn)
+        if qn.startswith("builtins.") and (qn.endswith("Error") or qn.split(".")[-1] in ("Exception", "StopIteration", "Warning", "UserWarning", "DeprecationWarning")):
+            return Other("opaque", qn)  # an exception object being built (to be raised)
         if qn in ("time.time", "time.monotonic", "time.perf_counter", "time.process_time", "time.clock"):
             return Scal()  # a number of the clock: no array, no effect on the model
         if qn.startswith("numpy.") and not any(isinstance(x, (Arr,)) for x in list(A) + list(K.values())) and not any(isinstance(x, Lst) and x.what in ("arrs", "masks") for x in A):
@@ -3296,7 +3331,7 @@ class ArrayInterp(Interp):
             return replace(a0, kind="masked", M=cov, shape=shape, alias=(a0.alias | a0.dataof | S) if shares else S, dt=dt or a0.dt,
                            dtprov=a0.dtprov if dt is None else E, constmask=const, maskof=E, dataof=E, Pc=pc, isbool=False if a0.isbool and dt else a0.isbool,
                            rng=a0.rng if (a0.kind == "plain" and not a0.dataof and dt is None) else (None, None),  # bounds of a plain array hold for every cell; a data view may expose unbounded hidden cells
-                           maskalias=malias if isinstance(mask, Arr) else (a0.maskalias if a0.kind == "masked" and shares else E))
+                           maskalias=(malias if shares else E) if isinstance(mask, Arr) else (a0.maskalias if a0.kind == "masked" and shares else E))  # A33: copy=True copies the mask argument too
         if isinstance(a0, Lst) and a0.what == "arrs" and a0.L:
             el = self.part_elem(a0)
             if isinstance(mask, Arr):
